@@ -1804,4 +1804,238 @@ theorem ti_finish (w : W) (aid : Nat) (ok : Bool) (h : TI lo w) : TI lo (w.finis
               rw [hS] at hs
               exact hso.sb k s hs
 
+
+theorem SO.step {w w' : W} (h : SO lo w) (ho : OrdW (inboxJobs w.inbox) (startedIds w.env.log) w') (hi : w'.inbox = w.inbox)
+    (hl : startsOf w'.env.log = startsOf w.env.log) (hz : ∀ i, total i w' = total i w) : SO lo w' := by
+  have hS : startedIds w'.env.log = startedIds w.env.log := by funext k; exact startedIds_of_starts hl k
+  refine ⟨by rw [hi, hS]; exact ho, by rw [hi]; exact h.i, by rw [hi, hS]; exact h.si, by rw [hS]; exact h.inc,
+    fun i hi' => by rw [hz]; exact h.z i hi', by rw [hS]; exact h.sb⟩
+
+theorem so_release_tail (w0 : W) (n : Nat) (hc : Core fk w0) (h : SO lo w0) :
+    SO lo ((if w0.poolSize != n then w0.resizePool n else w0).calcRest.afterHandle) := by
+  have h1 : SO lo (if w0.poolSize != n then w0.resizePool n else w0) := by
+    split
+    · exact h.step (ordW_resizePool w0 n hc h.ord) (ctl_resizePool w0 n).inbox (sames_resizePool w0 n).starts
+        (fun i => total_resizePool i w0 n)
+    · exact h
+  generalize (if w0.poolSize != n then w0.resizePool n else w0) = w1 at h1
+  have h2 : SO lo w1.calcRest :=
+    h1.step (ordW_calcRest w1 h1.ord) (ctl_calcRest w1).inbox (sames_calcRest w1).starts (fun i => total_calcRest i w1)
+  obtain ⟨f, fi, _⟩ := afterHandle_act w1.calcRest
+  exact h2.step (h2.ord.of_actors (afterHandle_fields _).1 f.pool f.env.actors) fi (sames_afterHandle _).starts
+    (fun i => total_afterHandle i _)
+
+/-- every operation but a dispatch -/
+theorem ti_applyOp (w : W) (op : Op) (hd : ∀ id key hash ttl acc, op ≠ .dispatch id key hash ttl acc)
+    (hns : op.isStaleAt w = false) (h : TI lo w) : TI lo (w.applyOp op) := by
+  have hf : opFresh w op := by
+    cases op <;> first | exact absurd rfl (hd _ _ _ _ _) | trivial
+  refine ⟨ki_applyOp w op hf h.ki, j_applyOp w op h.j hns, affInv_applyOp w op h.aff, ?_⟩
+  cases op with
+  | dispatch id key hash ttl acc => exact absurd rfl (hd _ _ _ _ _)
+  | finish aid ok => exact (ti_finish w aid ok h).so
+  | kill aid =>
+    simp only [W.applyOp]
+    rcases h.so with hs | hs
+    · exact Or.inl hs
+    · exact Or.inr (so_die (w.emit (.died aid)) aid (so_emit w _ rfl (fun _ => rfl) hs))
+  | resize n => exact (ti_send _ _ (fun _ hc => by cases hc) (fun _ => rfl) (ti_emit w _ rfl (fun _ => rfl) h)).so
+  | settings d n =>
+    simp only [W.applyOp]
+    refine (ti_send _ _ (fun _ hc => by cases hc) (fun _ => rfl) ?_).so
+    cases d with
+    | none => cases n with
+      | none => exact h
+      | some n => exact ti_emit w _ rfl (fun _ => rfl) h
+    | some d => cases n with
+      | none => exact ti_emit w _ rfl (fun _ => rfl) h
+      | some n => exact ti_emit _ _ rfl (fun _ => rfl) (ti_emit w _ rfl (fun _ => rfl) h)
+  | drain => exact (ti_send _ _ (fun _ hc => by cases hc) (fun _ => rfl) (ti_emit w _ rfl (fun _ => rfl) h)).so
+  | setHandler hd' => exact (ti_send _ _ (fun _ hc => by cases hc) (fun _ => rfl) (ti_emit w _ rfl (fun _ => rfl) h)).so
+  | advance => exact h.so
+  | block => exact (h.frame (w' := { w with armed := true }) rfl rfl rfl rfl rfl rfl rfl (EnvEq.refl _) rfl rfl (fun _ => rfl)).so
+  | release n =>
+    simp only [W.applyOp]
+    split
+    · by_cases hst : w.stopped = true
+      · left
+        have h1 := (ctl_resizePool ({ w.emit (.released n) with blocked := false } : W) n).stopped
+        have : ((if ({ w.emit (.released n) with blocked := false } : W).poolSize != n
+            then ({ w.emit (.released n) with blocked := false } : W).resizePool n
+            else ({ w.emit (.released n) with blocked := false } : W)).calcRest.afterHandle).stopped = w.stopped := by
+          rw [(afterHandle_act _).2.2, (ctl_calcRest _).stopped]
+          split
+          · exact h1
+          · rfl
+        rw [this]; exact hst
+      · have hst' : w.stopped = false := by simpa using hst
+        right
+        have hso : SO lo w := by
+          rcases h.so with hs | hs
+          · exact absurd hs hst
+          · exact hs
+        have hc := h.j.core hst'
+        have h0 : SO lo ({ w.emit (.released n) with blocked := false } : W) :=
+          (so_emit w _ rfl (fun _ => rfl) hso).same rfl rfl (fun _ => rfl) rfl rfl (fun _ => rfl)
+        have hc0 : Core (fkOf w.inbox) ({ w.emit (.released n) with blocked := false } : W) :=
+          hc.frame ⟨rfl, rfl, rfl, envEq_emit _ _⟩
+        exact so_release_tail _ n hc0 h0
+    · exact h.so
+  | nop => exact h.so
+
+
+theorem ti_ask (w : W) (m : FMsg) (hm : ∀ j, m ≠ .dispatch j) (hf : ∀ x, finKeys x [m] = []) (h : TI lo w) : TI lo (w.ask m) := by
+  unfold W.ask
+  split
+  · exact h.frame rfl rfl rfl rfl rfl rfl rfl (EnvEq.refl _) rfl rfl (fun _ => rfl)
+  · simp only
+    have h1 := ti_runQ RUN_FUEL _ (ti_send w m hm hf h)
+    split
+    · exact h1.frame rfl rfl rfl rfl rfl rfl rfl (EnvEq.refl _) rfl rfl (fun _ => rfl)
+    · exact h1
+
+theorem ti_queries (w : W) (h : TI lo w) : TI lo w.queries := by
+  unfold W.queries
+  split
+  · exact h.frame rfl rfl rfl rfl rfl rfl rfl (EnvEq.refl _) rfl rfl (fun _ => rfl)
+  · exact ti_ask _ _ (fun _ hc => by cases hc) (fun _ => rfl) (ti_ask _ _ (fun _ hc => by cases hc) (fun _ => rfl)
+      (ti_ask _ _ (fun _ hc => by cases hc) (fun _ => rfl)
+        (h.frame rfl rfl rfl rfl rfl rfl rfl (EnvEq.refl _) rfl rfl (fun _ => rfl))))
+
+/-- the bound on the ids handed out so far, after an operation -/
+def nextLo (lo : Nat) : Op → Nat
+  | .dispatch id _ _ _ _ => id + 1
+  | _ => lo
+
+/-- the operation respects the numbering: a dispatch uses an id not used before -/
+def opAscending (lo : Nat) : Op → Bool
+  | .dispatch id _ _ _ _ => decide (lo ≤ id)
+  | _ => true
+
+theorem ti_stepOp (w : W) (op : Op) (t0 tq te : Nat) (h : TI lo w) (hasc : opAscending lo op = true)
+    (hns : op.isStaleAt (W.advanceTo t0 (advanceFuel w t0) w) = false) : TI (nextLo lo op) (w.stepOp op t0 tq te) := by
+  unfold W.stepOp
+  simp only
+  generalize hw1 : W.advanceTo t0 (advanceFuel w t0) w = w1 at hns
+  have h1 : TI lo w1 := by rw [← hw1]; exact ti_advanceTo _ _ _ h
+  have h1' : TI (nextLo lo op) (w1.applyOp op) := by
+    cases op with
+    | dispatch id key hash ttl acc =>
+      simp only [opAscending, decide_eq_true_eq] at hasc
+      exact ti_dispatchOp w1 id key hash ttl acc hasc h1
+    | finish aid ok => exact ti_applyOp w1 _ (fun _ _ _ _ _ hc => by cases hc) hns h1
+    | kill aid => exact ti_applyOp w1 _ (fun _ _ _ _ _ hc => by cases hc) hns h1
+    | resize n => exact ti_applyOp w1 _ (fun _ _ _ _ _ hc => by cases hc) hns h1
+    | settings d n => exact ti_applyOp w1 _ (fun _ _ _ _ _ hc => by cases hc) hns h1
+    | drain => exact ti_applyOp w1 _ (fun _ _ _ _ _ hc => by cases hc) hns h1
+    | setHandler hd => exact ti_applyOp w1 _ (fun _ _ _ _ _ hc => by cases hc) hns h1
+    | advance => exact ti_applyOp w1 _ (fun _ _ _ _ _ hc => by cases hc) hns h1
+    | block => exact ti_applyOp w1 _ (fun _ _ _ _ _ hc => by cases hc) hns h1
+    | release n => exact ti_applyOp w1 _ (fun _ _ _ _ _ hc => by cases hc) hns h1
+    | nop => exact ti_applyOp w1 _ (fun _ _ _ _ _ hc => by cases hc) hns h1
+  generalize hw2 : W.runQ RUN_FUEL (w1.applyOp op) = w2
+  have h2 : TI (nextLo lo op) w2 := by rw [← hw2]; exact ti_runQ _ _ h1'
+  generalize hw3 : W.advanceTo tq (advanceFuel w2 tq) w2 = w3
+  have h3 : TI (nextLo lo op) w3 := by rw [← hw3]; exact ti_advanceTo _ _ _ h2
+  generalize hw4 : w3.queries = w4
+  have h4 : TI (nextLo lo op) w4 := by rw [← hw4]; exact ti_queries _ h3
+  generalize hw5 : W.advanceTo te (advanceFuel w4 te) w4 = w5
+  have h5 : TI (nextLo lo op) w5 := by rw [← hw5]; exact ti_advanceTo _ _ _ h4
+  exact (ti_emit { w5 with lastWq := none } _ rfl (fun _ => rfl)
+    (h5.frame rfl rfl rfl rfl rfl rfl rfl (EnvEq.refl _) rfl rfl (fun _ => rfl)))
+
+/-- the submitter numbers its jobs in increasing order, starting above `lo` -/
+def idsAscending : Nat → List Step → Bool
+  | _, [] => true
+  | lo, s :: rest => opAscending lo s.op && idsAscending (nextLo lo s.op) rest
+
+/-- the bound after a whole run -/
+def finalLo : Nat → List Step → Nat
+  | lo, [] => lo
+  | lo, s :: rest => finalLo (nextLo lo s.op) rest
+
+theorem ti_runSteps (w : W) (steps : List Step) (h : TI lo w) (hasc : idsAscending lo steps = true)
+    (hns : noStaleRun w steps = true) : TI (finalLo lo steps) (w.runSteps steps) := by
+  induction steps generalizing w lo with
+  | nil => exact h
+  | cons s rest ih =>
+    unfold idsAscending at hasc
+    unfold noStaleRun at hns
+    simp only [Bool.and_eq_true, Bool.not_eq_eq_eq_not, Bool.not_true] at hasc hns
+    unfold W.runSteps finalLo
+    exact ih _ (ti_stepOp w s.op s.t0 s.tq s.te h hasc.1 hns.1) hasc.2 hns.2
+
+theorem ti_init (c : CaseCfg) (hr : c.cfg.router = .kp) : TI 0 (init c) := by
+  have hq : isFactoryQueueing c.cfg.router = false := by rw [hr]; rfl
+  have hki := ki_init c hq
+  have hj := j_init c
+  refine ⟨hki, hj, affInv_init c hr, Or.inr ?_⟩
+  obtain ⟨_, f2, f3, _⟩ := init_fields c
+  have hlog : startsOf (init c).env.log = [] := by
+    unfold init
+    simp only
+    have hq2 := sames_growPool
+      ({ cfg := c.cfg, poolSize := 0, pool := [], byActor := [], avail := [], inQ := [], last := 0,
+         rl := c.rl.map fun (r : Nat × Nat × Nat × Nat) =>
+            let lc : LeakyBucket.Cfg := ⟨r.1, r.2.1, r.2.2.1, 10 ^ 40⟩
+            (lc, LeakyBucket.new lc (some r.2.2.2) 0),
+         queue := [], disc := c.disc, drain := .notDraining,
+         handler := if c.cfg.hasHandler then some 0 else none,
+         env := { actors := [], log := [], now := 0, sup := [] },
+         nextAid := 0, stopSignal := false, stopped := false, inbox := [], blocked := false, armed := false,
+         nextCalc := CALCULATE_FREQUENCY, answers := [], lastWq := none } : W) c.n
+    simp only [W.emit, Env.emit, startsOf_append]
+    rw [hq2.starts]
+    simp [startsOf]
+  have hS : ∀ k, startedIds (init c).env.log k = [] := by
+    intro k; unfold startedIds; rw [hlog]; rfl
+  -- every pipeline is empty: no job has been submitted
+  have hz : ∀ i, total i (init c) = 0 := fun i => total_init i c
+  have hwq : ∀ p ∈ (init c).pool, wq p (init c).env = [] := by
+    intro p hp
+    apply Classical.byContradiction
+    intro hne
+    cases hx : wq p (init c).env with
+    | nil => exact hne hx
+    | cons x xs =>
+      have hxm : x ∈ wq p (init c).env := by rw [hx]; exact List.mem_cons_self ..
+      unfold wq at hxm
+      rcases List.mem_append.mp hxm with hxm | hxm
+      · unfold mbox at hxm
+        cases g : (init c).env.getActor p.actor with
+        | none => rw [g] at hxm; cases hxm
+        | some a =>
+          rw [g] at hxm
+          simp only at hxm
+          split at hxm
+          · have := total_pos_of_held g (j := x) (by unfold Actor.heldJobs; exact List.mem_append_right _ hxm)
+            rw [hz] at this; cases this
+          · cases hxm
+      · have := total_pos_of_waiting (w := init c) (x := x)
+          (List.mem_append_right _ (List.mem_flatMap.mpr ⟨p, hp, hxm⟩))
+        rw [hz] at this; cases this
+  refine ⟨?_, by rw [f3]; exact List.Pairwise.nil, ?_, ?_, fun i _ => hz i, ?_⟩
+  · rw [f3]
+    refine ⟨by rw [f2]; exact List.Pairwise.nil, ?_, ?_, ?_, ?_, ?_, ?_⟩
+    · intro p hp; rw [hwq p hp]; exact List.Pairwise.nil
+    · intro x hx; rw [f2] at hx; cases hx
+    · intro p hp x hx; rw [hwq p hp] at hx; cases hx
+    · intro p hp x hx; rw [hwq p hp] at hx; cases hx
+    · intro x hx; rw [f2] at hx; cases hx
+    · intro p hp x hx; rw [hwq p hp] at hx; cases hx
+  · intro x hx; rw [f3] at hx; cases hx
+  · intro k; rw [hS]; exact List.Pairwise.nil
+  · intro k s hs; rw [hS] at hs; cases hs
+
+/-- (start order) key-persistent routing, job ids in increasing order, no stale completion: while the factory has
+not entered `post_stop`, the jobs of every key have STARTED in increasing order of their ids -/
+theorem starts_in_order (c : CaseCfg) (hr : c.cfg.router = .kp) (steps : List Step)
+    (hasc : idsAscending 0 steps = true) (hns : noStaleRun (init c) steps = true)
+    (hst : ((init c).runSteps steps).stopped = false) (k : Nat) :
+    (startedIds ((init c).runSteps steps).env.log k).Pairwise (· < ·) := by
+  have h := ti_runSteps (init c) steps (ti_init c hr) hasc hns
+  rcases h.so with hs | hs
+  · rw [hst] at hs; cases hs
+  · exact hs.inc k
+
 end Factory
